@@ -572,6 +572,14 @@ func BlockForever(site string) {
 // blocking; block() performs the real blocking select over all cases and
 // returns the index of the one that fired. Returns -1 for default.
 func Select(site string, n int, hasDefault bool, try func(int) bool, block func() int) int {
+	if hasDefault && n <= 1 {
+		// a poll of one channel: no choice to make, never blocks, no scheduling point
+		// (keeps hot polling loops such as the QoS token bucket cheap)
+		if n == 1 && try(0) {
+			return 0
+		}
+		return -1
+	}
 	s := current()
 	var t *Task
 	if s != nil {
@@ -588,7 +596,11 @@ func Select(site string, n int, hasDefault bool, try func(int) bool, block func(
 		}
 		return block()
 	}
-	s.yield(t, site)
+	if !hasDefault {
+		// a select with a default clause never blocks: no scheduling point is needed in front of it
+		// (hot polling loops such as the QoS token bucket would otherwise cost one scheduler step per iteration)
+		s.yield(t, site)
+	}
 	if n == 1 {
 		if try(0) {
 			return 0
